@@ -20,9 +20,10 @@ def run(tier, seed, work):
     per, depth, nj = (3, 30, 10) if quick else (30, 40, 12)
     hist = rc.jobs(seed + 40, per, depth, nj, 3, 2, "c01hist")
     groups = [("Trace_Relayer.tla", "Trace_Relayer_C01.cfg", table), ("Trace_Relayer.tla", "Trace_Relayer_C01_hist.cfg", hist)]
+    proofs = [verif.prove("Proofs_RelayerArith", work)]   # TLAPS: the threshold is ceil(2(n+1)/3), within the group, and two quorums overlap in a third - for every group size
     return verif.run_stateful_check(
         "C01", tier, seed, work, mc_list=[("MC_Voted.tla", cfg)], groups=groups, key_fn=lambda ev: key(ev) if ev.get("ev") == "vote" else rc.key(ev),
-        level="model_checking", extra_cov=dict(exhaustive=True, exhaustive_part="the case table of MC_Voted (group 1); the histories (group 2) are random"),
+        level="model_checking", extra_cov=dict(unbounded_lemmas=proofs, exhaustive=True, exhaustive_part="the case table of MC_Voted (group 1); the histories (group 2) are random"),
         assumptions=["ideal BLS: an aggregate verifies under a bag of keys iff exactly those key holders signed exactly that sign-doc "
                      "(rogue-key resistance rests on the proof of possession checked under C16)",
                      "group membership is static inside the case table; the random histories add dynamic membership (joins by MsgNewVoter, "
